@@ -252,12 +252,48 @@ def peval(p, env):
                     ar, i = g[1], g[2]
                     vals = [peval(o.p, env) for o in ar.operands]
                     env[a] = (ar.pyfn(*vals) >> i) & 1
+                elif g[0] == "z3bool":
+                    m = env.get("__z3model__")
+                    if m is None:
+                        raise Undecided("counter-model without integer values")
+                    # the model fixes the integer variables; boolean atoms below the term take their env values
+                    sub = [(z3atom(b), z3.BoolVal(bool(env[b]))) for b in list(env) if isinstance(b, int) and b not in C.gates]
+                    env[a] = 1 if z3.is_true(m.eval(z3.substitute(g[1], *sub) if sub else g[1], model_completion=True)) else 0
                 else:
                     env[a] = int(all(peval(q, env) for q in g[1]))
             if not env[a]:
                 v = 0
                 break
         r ^= v
+    return r
+
+
+_Z3ATOMS = {}
+
+
+def z3_bool_atoms(expr):
+    """engine atoms (Bool constants a<i>) occurring inside a z3 term: bits of symbolic words used in integer facts"""
+    k = expr.get_id()
+    r = _Z3ATOMS.get(k)
+    if r is None:
+        r = set()
+        seen = set()
+        todo = [expr]
+        while todo:
+            e = todo.pop()
+            i = e.get_id()
+            if i in seen:
+                continue
+            seen.add(i)
+            if z3.is_const(e) and e.decl().kind() == z3.Z3_OP_UNINTERPRETED and z3.is_bool(e):
+                n = e.decl().name()
+                if n[:1] == "a" and n[1:].isdigit():
+                    r.add(int(n[1:]))
+            else:
+                todo.extend(e.children())
+        if len(_Z3ATOMS) > 20000:
+            _Z3ATOMS.clear()
+        _Z3ATOMS[k] = r
     return r
 
 
@@ -283,6 +319,7 @@ def base_support(polys):
         elif g[0] == "z3bool":
             base.add(("zint", g[1].get_id()))  # poison: forces the SMT back end and couples all int facts
             base.add("zint")
+            todo |= z3_bool_atoms(g[1])
         else:
             for q in g[1]:
                 todo |= patoms(q)
@@ -380,6 +417,7 @@ def z3defs(polys):
                 todo |= patoms(o.p)
         elif g is not None and g[0] == "z3bool":
             out.append(z3atom(a) == g[1])
+            todo |= z3_bool_atoms(g[1])
         elif g is not None:
             out.append(z3atom(a) == z3.And([z3poly(q) for q in g[1]]))
             for q in g[1]:
